@@ -1,0 +1,278 @@
+//go:build verif
+
+package verifapi
+
+import (
+	"github.com/grafana/cog/internal/ast"
+	"github.com/grafana/cog/internal/ast/compiler"
+	"github.com/grafana/cog/internal/codegen"
+	"github.com/grafana/cog/internal/jennies/golang"
+	"github.com/grafana/cog/internal/jennies/java"
+	jsonschemajenny "github.com/grafana/cog/internal/jennies/jsonschema"
+	openapijenny "github.com/grafana/cog/internal/jennies/openapi"
+	"github.com/grafana/cog/internal/jennies/php"
+	"github.com/grafana/cog/internal/jennies/python"
+	"github.com/grafana/cog/internal/jennies/typescript"
+	"github.com/grafana/cog/internal/jsonschema"
+	"github.com/grafana/cog/internal/languages"
+	"github.com/grafana/cog/internal/openapi"
+	"github.com/grafana/cog/internal/orderedmap"
+	"github.com/grafana/cog/internal/simplecue"
+	"github.com/grafana/cog/internal/veneers"
+	"github.com/grafana/cog/internal/veneers/builder"
+	"github.com/grafana/cog/internal/veneers/option"
+	"github.com/grafana/cog/internal/veneers/rewrite"
+	"github.com/grafana/cog/internal/yaml"
+)
+
+// Intermediate representation.
+type (
+	Kind                  = ast.Kind
+	ScalarKind            = ast.ScalarKind
+	Op                    = ast.Op
+	TypeConstraint        = ast.TypeConstraint
+	JenniesHints          = ast.JenniesHints
+	Type                  = ast.Type
+	Types                 = ast.Types
+	Object                = ast.Object
+	DisjunctionType       = ast.DisjunctionType
+	ArrayType             = ast.ArrayType
+	EnumType              = ast.EnumType
+	EnumValue             = ast.EnumValue
+	MapType               = ast.MapType
+	StructType            = ast.StructType
+	StructField           = ast.StructField
+	ConstantReferenceType = ast.ConstantReferenceType
+	RefType               = ast.RefType
+	ScalarType            = ast.ScalarType
+	IntersectionType      = ast.IntersectionType
+	ComposableSlotType    = ast.ComposableSlotType
+	Schemas               = ast.Schemas
+	Schema                = ast.Schema
+	SchemaMeta            = ast.SchemaMeta
+	SchemaKind            = ast.SchemaKind
+	SchemaVariant         = ast.SchemaVariant
+
+	Builder              = ast.Builder
+	Builders             = ast.Builders
+	Constructor          = ast.Constructor
+	Option               = ast.Option
+	OptionDefault        = ast.OptionDefault
+	Argument             = ast.Argument
+	PathIndex            = ast.PathIndex
+	PathItem             = ast.PathItem
+	Path                 = ast.Path
+	EnvelopeFieldValue   = ast.EnvelopeFieldValue
+	AssignmentEnvelope   = ast.AssignmentEnvelope
+	AssignmentValue      = ast.AssignmentValue
+	AssignmentMethod     = ast.AssignmentMethod
+	AssignmentNilCheck   = ast.AssignmentNilCheck
+	Assignment           = ast.Assignment
+	AssignmentConstraint = ast.AssignmentConstraint
+	BuilderGenerator     = ast.BuilderGenerator
+	BuilderFactory       = ast.BuilderFactory
+	OptionCall           = ast.OptionCall
+	TypedConstant        = ast.TypedConstant
+	OptionCallParameter  = ast.OptionCallParameter
+	FactoryRef           = ast.FactoryRef
+	FactoryCall          = ast.FactoryCall
+)
+
+var (
+	NewSchema = ast.NewSchema
+	NewObject = ast.NewObject
+)
+
+// Ordered map, instantiated the way ast.Schema uses it plus a small-value one.
+func NewObjectMap() *orderedmap.Map[string, ast.Object] { return orderedmap.New[string, ast.Object]() }
+func NewIntMap() *orderedmap.Map[string, int]           { return orderedmap.New[string, int]() }
+func IntMapFromMap(m map[string]int) *orderedmap.Map[string, int] {
+	return orderedmap.FromMap(m)
+}
+
+type IntMap = orderedmap.Map[string, int]
+type ObjectMap = orderedmap.Map[string, ast.Object]
+
+// Schema transformations.
+type (
+	Pass             = compiler.Pass
+	Passes           = compiler.Passes
+	ObjectReference  = compiler.ObjectReference
+	ObjectReferences = compiler.ObjectReferences
+	FieldReference   = compiler.FieldReference
+
+	AddFields                               = compiler.AddFields
+	AddObject                               = compiler.AddObject
+	AnonymousEnumToExplicitType             = compiler.AnonymousEnumToExplicitType
+	AnonymousStructsToNamed                 = compiler.AnonymousStructsToNamed
+	AppendCommentObjects                    = compiler.AppendCommentObjects
+	ConstantToEnum                          = compiler.ConstantToEnum
+	DataqueryIdentification                 = compiler.DataqueryIdentification
+	DisjunctionOfConstantsToEnum            = compiler.DisjunctionOfConstantsToEnum
+	DisjunctionWithConstantToDefault        = compiler.DisjunctionWithConstantToDefault
+	DisjunctionToType                       = compiler.DisjunctionToType
+	DisjunctionInferMapping                 = compiler.DisjunctionInferMapping
+	DisjunctionOfAnonymousStructsToExplicit = compiler.DisjunctionOfAnonymousStructsToExplicit
+	DisjunctionWithNullToOptional           = compiler.DisjunctionWithNullToOptional
+	DuplicateObject                         = compiler.DuplicateObject
+	FieldsSetDefault                        = compiler.FieldsSetDefault
+	FieldsSetNotRequired                    = compiler.FieldsSetNotRequired
+	FieldsSetRequired                       = compiler.FieldsSetRequired
+	FilterSchemas                           = compiler.FilterSchemas
+	FlattenDisjunctions                     = compiler.FlattenDisjunctions
+	HintObject                              = compiler.HintObject
+	InferEntrypoint                         = compiler.InferEntrypoint
+	InlineObjectsWithTypes                  = compiler.InlineObjectsWithTypes
+	NameAnonymousStruct                     = compiler.NameAnonymousStruct
+	NotRequiredFieldAsNullableType          = compiler.NotRequiredFieldAsNullableType
+	Omit                                    = compiler.Omit
+	OmitFields                              = compiler.OmitFields
+	PrefixEnumValues                        = compiler.PrefixEnumValues
+	PrefixObjectNames                       = compiler.PrefixObjectNames
+	RemoveIntersections                     = compiler.RemoveIntersections
+	RenameNumericEnumValues                 = compiler.RenameNumericEnumValues
+	RenameObject                            = compiler.RenameObject
+	ReplaceReference                        = compiler.ReplaceReference
+	RetypeField                             = compiler.RetypeField
+	RetypeObject                            = compiler.RetypeObject
+	SanitizeEnumMemberNames                 = compiler.SanitizeEnumMemberNames
+	SchemaSetEntrypoint                     = compiler.SchemaSetEntrypoint
+	SchemaSetIdentifier                     = compiler.SchemaSetIdentifier
+	TrimEnumValues                          = compiler.TrimEnumValues
+	UndiscriminatedDisjunctionToAny         = compiler.UndiscriminatedDisjunctionToAny
+	Unspec                                  = compiler.Unspec
+)
+
+// Configuration loaders.
+type (
+	CompilerLoader = yaml.CompilerLoader
+	VeneersLoader  = yaml.VeneersLoader
+	YAMLCompiler   = yaml.Compiler
+	YAMLVeneers    = yaml.Veneers
+)
+
+var (
+	NewCompilerLoader = yaml.NewCompilerLoader
+	NewVeneersLoader  = yaml.NewVeneersLoader
+)
+
+// Pipeline.
+type (
+	Pipeline          = codegen.Pipeline
+	PipelineOption    = codegen.PipelineOption
+	Input             = codegen.Input
+	InputBase         = codegen.InputBase
+	JSONSchemaInput   = codegen.JSONSchemaInput
+	OpenAPIInput      = codegen.OpenAPIInput
+	CueInput          = codegen.CueInput
+	KindRegistryInput = codegen.KindRegistryInput
+	Output            = codegen.Output
+	OutputLanguage    = codegen.OutputLanguage
+	Transforms        = codegen.Transforms
+)
+
+var (
+	PipelineFromFile   = codegen.PipelineFromFile
+	NewPipeline        = codegen.NewPipeline
+	PipelineParameters = codegen.Parameters
+)
+
+// Languages.
+type (
+	Language           = languages.Language
+	Languages          = languages.Languages
+	LanguageContext    = languages.Context
+	LanguageConfig     = languages.Config
+	NullableConfig     = languages.NullableConfig
+	ConverterGenerator = languages.ConverterGenerator
+	Converter          = languages.Converter
+
+	GoConfig         = golang.Config
+	JavaConfig       = java.Config
+	JSONSchemaConfig = jsonschemajenny.Config
+	OpenAPIConfig    = openapijenny.Config
+	PHPConfig        = php.Config
+	PythonConfig     = python.Config
+	TypescriptConfig = typescript.Config
+)
+
+var (
+	GenerateBuilderNilChecks = languages.GenerateBuilderNilChecks
+	NewConverterGenerator    = languages.NewConverterGenerator
+
+	NewGo         = golang.New
+	NewJava       = java.New
+	NewJSONSchema = jsonschemajenny.New
+	NewOpenAPI    = openapijenny.New
+	NewPHP        = php.New
+	NewPython     = python.New
+	NewTypescript = typescript.New
+)
+
+// Parsers.
+type (
+	JSONSchemaParserConfig = jsonschema.Config
+	OpenAPIParserConfig    = openapi.Config
+	CueParserConfig        = simplecue.Config
+)
+
+var (
+	JSONSchemaGenerateAST = jsonschema.GenerateAST
+	OpenAPIGenerateAST    = openapi.GenerateAST
+	CueGenerateAST        = simplecue.GenerateAST
+)
+
+// Builder transformations.
+type (
+	Rewriter          = rewrite.Rewriter
+	RewriteConfig     = rewrite.Config
+	LanguageRules     = rewrite.LanguageRules
+	BuilderRule       = builder.RewriteRule
+	BuilderSelector   = builder.Selector
+	CompositionConfig = builder.CompositionConfig
+	Initialization    = builder.Initialization
+	OptionRule        = option.RewriteRule
+	OptionSelector    = option.Selector
+	OptionAction      = option.RewriteAction
+	BooleanUnfold     = option.BooleanUnfold
+	VeneerOption      = veneers.Option
+	VeneerAssignment  = veneers.Assignment
+)
+
+var (
+	NewRewrite = rewrite.NewRewrite
+
+	BuilderEveryBuilder                   = builder.EveryBuilder
+	BuilderByObjectName                   = builder.ByObjectName
+	BuilderByName                         = builder.ByName
+	BuilderStructGeneratedFromDisjunction = builder.StructGeneratedFromDisjunction
+	BuilderByVariant                      = builder.ByVariant
+	BuilderOmit                           = builder.Omit
+	BuilderMergeInto                      = builder.MergeInto
+	BuilderComposeBuilders                = builder.ComposeBuilders
+	BuilderRename                         = builder.Rename
+	BuilderVeneerTrailAsComments          = builder.VeneerTrailAsComments
+	BuilderProperties                     = builder.Properties
+	BuilderDuplicate                      = builder.Duplicate
+	BuilderInitialize                     = builder.Initialize
+	BuilderPromoteOptionsToConstructor    = builder.PromoteOptionsToConstructor
+	BuilderAddOption                      = builder.AddOption
+	BuilderAddFactory                     = builder.AddFactory
+
+	OptionEveryOption             = option.EveryOption
+	OptionByName                  = option.ByName
+	OptionByBuilder               = option.ByBuilder
+	OptionRename                  = option.Rename
+	OptionArrayToAppend           = option.ArrayToAppend
+	OptionMapToIndex              = option.MapToIndex
+	OptionRenameArguments         = option.RenameArguments
+	OptionOmit                    = option.Omit
+	OptionVeneerTrailAsComments   = option.VeneerTrailAsComments
+	OptionUnfoldBoolean           = option.UnfoldBoolean
+	OptionStructFieldsAsArguments = option.StructFieldsAsArguments
+	OptionStructFieldsAsOptions   = option.StructFieldsAsOptions
+	OptionDisjunctionAsOptions    = option.DisjunctionAsOptions
+	OptionDuplicate               = option.Duplicate
+	OptionAddAssignment           = option.AddAssignment
+	OptionAddComments             = option.AddComments
+)
